@@ -45,8 +45,8 @@ func init() {
 		run: runC17,
 	})
 	addWitness(witness{Prop: "C17", Name: "readdir-skips-entry-that-does-not-fit", File: "pkg/fuse/fs_ro_ops.go",
-		Old: "\t\tn := fuseutil.WriteDirent(op.Dst[op.BytesRead:], children[i])\n\t\tif n == 0 {\n\t\t\tbreak\n\t\t}",
-		New: "\t\tn := fuseutil.WriteDirent(op.Dst[op.BytesRead:], children[i])\n\t\tif n == 0 {\n\t\t\tcontinue\n\t\t}",
+		Old:    "\t\tn := fuseutil.WriteDirent(op.Dst[op.BytesRead:], children[i])\n\t\tif n == 0 {\n\t\t\tbreak\n\t\t}",
+		New:    "\t\tn := fuseutil.WriteDirent(op.Dst[op.BytesRead:], children[i])\n\t\tif n == 0 {\n\t\t\tcontinue\n\t\t}",
 		Expect: "readdir.no-write-after-full"})
 	addWitness(witness{Prop: "C17", Name: "readdir-resumes-one-late", File: "pkg/fuse/fs_ro_ops.go",
 		Old:    "\tfor i := offset; i < len(children); i++ {\n\t\tn := fuseutil.WriteDirent(",
@@ -452,7 +452,7 @@ func checkDirentWriteFlow(c *Ctx, f *FuncInfo, resume func(b *Body, w *ast.CallE
 				// n == 0: nothing was written, the buffer is full
 				return full | accounted
 			}
-			return s &^ full | room
+			return s&^full | room
 		},
 	})
 	c.check(len(badFull) == 0, "readdir.no-write-after-full", f.ID, p.Pos(writes[0].Pos()),
@@ -1201,7 +1201,7 @@ func checkROPlumbing(c *Ctx, rootID constant.Value) {
 		info := f.Info()
 		reads := b.findCalls(callTo("io.ReaderAt.ReadAt"), false)
 		wantRecv := map[string]bool{
-			"recv.bundle.ConsumableStore.GetAt(call:context.Background(),param#0.fullPath)#0":                      true,
+			"recv.bundle.ConsumableStore.GetAt(call:context.Background(),param#0.fullPath)#0":          true,
 			"recv.cafs.GetAt(call:context.Background(),call:pkg/cafs.KeyFromString(param#0.hash)#0)#0": true,
 		}
 		seenRecv := map[string]bool{}
